@@ -315,6 +315,24 @@ def _evclass(ev):
     return '%s-%s' % (ev[1], tgt)
 
 
+def extra_passes(run, tier, i, n):
+    """thorough tier, shard 0: cross-check the interposed call set against strace (tools/strace_guard.py): a hole in the shim would make the
+    crash enumeration silently coarser than claimed, so a mismatch is a harness error (exit 2), not a pass"""
+    if tier != 'thorough' or i != 0:
+        return
+    import importlib.util
+    spec = importlib.util.spec_from_file_location('strace_guard', os.path.join(os.path.dirname(os.path.dirname(os.path.abspath(__file__))), 'tools', 'strace_guard.py'))
+    sg = importlib.util.module_from_spec(spec)
+    spec.loader.exec_module(sg)
+    total = 0
+    for cfg in CONFIGS:
+        counts, problems = sg.check(cfg)
+        if problems:
+            raise HarnessError('vshim does not see every mutating call for %s: %s' % (cfg, problems[:3]))
+        total += counts[0]
+    run.extra['strace_guard_events_matched_1to1'] = total
+
+
 REQUIRED_CLASSES = ['nonempty_prior', 'partial_write', 'event:rename', 'event:unlink', 'event:write', 'event:mkdir', 'event:open-w', 'event:close-w', 'event:pwrite'] + \
     ['cfg:' + c for c in CONFIGS] + ['op:' + o for o in set(OPKINDS)]
 TRIGGERS = {}
